@@ -298,7 +298,7 @@ def main(tier, seed):
         outs = sorted(glob.glob(os.path.join(outdir, "*.exp")))
         return rc, outs, (so + se)
 
-    def roundtrip(tag, text, lengths, cls):
+    def roundtrip(tag, text, lengths, cls, keep=False):
         """returns printed text at the default length (or None)"""
         nonlocal evals, oracle_fail, nontrivial
         d = os.path.join(wroot, tag)
@@ -376,7 +376,8 @@ def main(tier, seed):
                               signature=(sig_split if "again changes it" in what else None))
                 if not ("again changes it" in what and sig_split):
                     break
-        shutil.rmtree(d, ignore_errors=True)
+        if not keep:
+            shutil.rmtree(d, ignore_errors=True)
         return first
 
     lengths = [None, 40, 200, ("t", None), ("c", 60), ("tc", 30)] if tier == "quick" else \
@@ -453,7 +454,39 @@ def main(tier, seed):
                   " w2 : 'STRS.E.SOME_RATHER_LONG_ATTRIBUTE_NAME.AND_ANOTHER.ONE''S' IN TYPEOF (SELF);\n"
                   " w3 : nm LIKE 'it''s';\nEND_ENTITY;\nEND_SCHEMA;\n")
     sweep = list(range(20, 135)) if tier == "quick" else list(range(10, 260))
-    roundtrip("strs", STR_SCHEMA, sweep, "rich")
+    roundtrip("strs", STR_SCHEMA, sweep, "rich", keep=True)
+    # the literals exppp printed for the three strings at every length must be ones ExpStr.v can print (cuts after
+    # a dot only, never inside a pair of apostrophes) for that value: Properties_C07 c07_explained_literals_are_model_output
+    STR_VALUES = {"w1": "the owner's name of this product's category is not the owner's own idea of a name",
+                  "w2": "STRS.E.SOME_RATHER_LONG_ATTRIBUTE_NAME.AND_ANOTHER.ONE'S", "w3": "it's"}
+    queries, qinfo = [], []
+    for cat in sorted(glob.glob(os.path.join(wroot, "strs", "cat_*.exp"))):
+        ptxt = open(cat, encoding="latin-1").read()
+        for lab, val in STR_VALUES.items():
+            m = re.search(r"\b%s\s*:(.*?);[ \t]*\n" % lab, ptxt, re.S)
+            if not m:
+                continue
+            lits = [t_[1:-1] for t_ in tokens(m.group(1), True) if t_.startswith("'")]
+            queries.append("S %s %s" % (val.encode("latin-1").hex() or "-", ",".join((x.encode("latin-1").hex() or "-") for x in lits)))
+            qinfo.append((os.path.basename(cat), lab, lits))
+    if queries:
+        rcm, mo3, me = sh([drv], input=("\n".join(queries) + "\n").encode(), timeout=120)
+        answers = mo3.split()
+        hist["split_strings_explained"] = 0
+        for (catn, lab, lits), ans in zip(qinfo, answers + ["?"] * len(qinfo)):
+            evals += 1
+            if ans == "OK":
+                hist["split_strings_explained"] += 1
+                if len(lits) > 1:
+                    nontrivial += 1
+            else:
+                disagreements += 1
+                # is it only the model that no longer describes the code, or does the text denote another value?
+                denotes = all(re.match(r"^(?:[^']|'')*$", x) for x in lits) and "".join(x.replace("''", "'") for x in lits) == STR_VALUES[lab]
+                res.violation("the literals exppp prints for rule %s in %s (%s) are not a splitting ExpStr.v allows for the value%s" %
+                              (lab, catn, " + ".join("'%s'" % x for x in lits), "" if denotes else ": they do not denote the source string"),
+                              {"input_file": save("c07-strs.exp", STR_SCHEMA), "theorem_or_correspondence": "correspondence C07: coq/ExpStr.v literals vs exppp breakLongStr"},
+                              found_input=not denotes)
     shipped = ["test/unitary_schemas/function.exp", "test/unitary_schemas/entity_where_rule.exp", "data/pdm/pdm_schema_12.exp"] if tier == "quick" else \
         sorted(os.path.relpath(p, REPO) for p in glob.glob(os.path.join(REPO, "data", "*", "*.exp")) + glob.glob(os.path.join(REPO, "test", "unitary_schemas", "*.exp")))
     for rel in shipped:
